@@ -72,6 +72,8 @@ def check(ctx, rep):
                     rep.sample({"rule": "T-SAT", "class": key, "extracted": val, "reference": exp, "example": ex})
     rep.analysed_item("range::BoundSet::satisfies interpreted on %d realisable gate valuations over 9 bound shapes" % total)
     range_satisfies(ctx, rep, prog, env)
+    if rep.inconclusive:
+        witness(rep, prog, env)
     rep.notes.append("build metadata: the abstract versions of this table have no `build` field; any read of it would make "
                      "the analysis inconclusive. Version::eq/cmp/hash ignoring build is decided by C04.")
 
@@ -176,3 +178,36 @@ def range_satisfies(ctx, rep, prog, env):
                          "answered %s, the OR of the alternatives' own answers is %s (%s)" % (val, exp, key),
                          example=">=1.0.0 <2.0.0 || 1.5.0-alpha  vs  1.5.0-beta")
     rep.analysed_item("range::Range::satisfies interpreted on %d (alternative shapes, gate valuation) cases" % len(jobs))
+
+
+def witness(rep, prog, env):
+    """the gate abstraction did not apply (e.g. components compared across fields): look for a concrete counterexample on
+    real one-alternative ranges over a small universe of structured versions whose minor/patch/prerelease vary.
+    A mismatch is genuine; none found leaves the check inconclusive."""
+    from .. import minver
+    from ..interp import Interp
+    rule = "T-SAT-WITNESS"
+    rep.rule(rule, 0, "witness search on structured versions when the gate abstraction does not apply")
+    universe = [(0, a, b, pre) for a in (0, 1) for b in (0, 1) for pre in ((), (0,), (1,))]
+    n = bad = 0
+    for alt in minver.alternatives(universe):
+        R = minver.build_range(prog, env, [alt])
+        for v in universe:
+            pol = minver.MinPolicy()
+            pol.witness = True
+            it = Interp(prog, pol, overrides={})
+            try:
+                r = it.call_body("range::Range::satisfies", [Ptr(Cell(R)), Ptr(Cell(minver.mk_version(prog, "v", v)))])
+            except (Inconclusive, Panic):
+                continue
+            n += 1
+            exp = minver.sat_alt(alt, v)
+            if r == exp:
+                rep.ok(rule)
+            else:
+                bad += 1
+                if bad <= 3:
+                    rep.fail(rule, "range::BoundSet::satisfies|%s|answered %s for a %s version" % (rule, r, "prerelease" if v[3] else "release"),
+                             "`%s` satisfies(%s) = %s, expected %s" % (minver.alt_str(alt), minver.vstr(v), r, exp),
+                             example="%s vs %s" % (minver.alt_str(alt), minver.vstr(v)))
+    rep.analysed_item("witness search: %d (range, version) pairs over %d structured versions, %d mismatches" % (n, len(universe), bad))
